@@ -18,7 +18,7 @@ CONSTANTS
   EarlyReturn = FALSE
   MonoGE = TRUE
   InitJoined = TRUE
-INVARIANTS TypeOK C10_OpenedStay C10_OpenableStay NoReuse C10_KeysStable C09_GapFree C09_Opens
+INVARIANTS RefinesMech TypeOK C10_OpenedStay C10_OpenableStay NoReuse C10_KeysStable C09_GapFree C09_Opens
 PROPERTIES C10_Monotone C09_Monotone
 VIEW view
 CHECK_DEADLOCK FALSE
